@@ -660,7 +660,8 @@ def body(ck, quick, exes, lower_exe, work, always):
         idx, f = fl[0]
         P, es = progs[idx][:2]
         text = P.text()
-        if reported < 3:
+        hangs = any("SIG14" in str(v) or "timeout" in str(v) for v in f["views"].values())
+        if reported < 3 and not hangs:      # every trial of a hanging program costs the engines' alarm time
             try:
                 text = shrink(exes, text, [f["entry"]], f["args"], work, always, key, budget=40 if quick else 150)
             except Exception as ex:
